@@ -332,6 +332,7 @@ struct IrCase {
 struct C12 : vr::Driver {
   std::vector<Item> items;
   std::vector<std::string> numStrings;
+  size_t nEnumerated = 0;  // numStrings[0..nEnumerated) is the exhaustive part, the rest the boundary list
   std::vector<IrCase> irCases;
   std::vector<std::pair<std::string, std::string>> jsonDocs;  // (description, text)
   std::vector<int> jsonMustReject;                            // 1 must reject, 0 open, 2 must accept
@@ -500,6 +501,19 @@ struct C12 : vr::Driver {
         for (char c : alpha) numStrings.push_back(numStrings[i] + c);
       b = e;
     }
+    // boundary spellings that short strings cannot reach: values around 2^31, 2^32, 2^53, 2^63, 2^64 and 10^18..10^20 with
+    // either sign and every suffix class (the same oracle applies; listed last so the exhaustive part stays first)
+    {
+      nEnumerated = numStrings.size();
+      const char* bases[] = {"2147483647", "2147483648", "2147483649", "4294967295", "4294967296", "4294967297", "9007199254740993",
+                             "9223372036854775807", "9223372036854775808", "9223372036854775809", "18446744073709551615", "18446744073709551616",
+                             "1000000000000000000", "10000000000000000000", "100000000000000000000", "8796093022207", "8796093022208"};
+      const char* signs[] = {"", "-"};
+      const char* sufs[] = {"", ".0", ".5", "K", "M", "G", "T", "%", "e0", "x", "0"};
+      for (auto bs : bases)
+        for (auto sg : signs)
+          for (auto sf : sufs) numStrings.push_back(std::string(sg) + bs + sf);
+    }
     buildIrCases();
     buildJsonDocs();
     maximalText = jsonDocs[0].second;
@@ -514,7 +528,7 @@ struct C12 : vr::Driver {
   std::string describe(size_t i) override {
     auto& it = items[i];
     switch (it.kind) {
-      case 'N': return "number/size strings #" + std::to_string(it.a) + ".." + std::to_string(it.b) + " of all strings len<=" + std::to_string(lenN) + " over '0159.e-+kMGt% naifx', e.g. '" + numStrings[it.a] + "'";
+      case 'N': return "number/size strings #" + std::to_string(it.a) + ".." + std::to_string(it.b) + " of all strings len<=" + std::to_string(lenN) + " over '0159.e-+kMGt% naifx' followed by 374 boundary spellings (2^31, 2^32, 2^53, 2^63, 2^64, 10^18..10^20 +-1, both signs, 11 suffixes), e.g. '" + numStrings[it.a] + "'";
       case 'I': return "IR cases #" + std::to_string(it.a) + ".." + std::to_string(it.b) + ", e.g. " + irCases[it.a].desc;
       case 'R': return "ruleset-level fields (post_action_delay, prekill_hook_timeout, silence-logs, names, empty groups)";
       case 'J': return "JSON documents #" + std::to_string(it.a) + ".." + std::to_string(it.b) + ", e.g. " + jsonDocs[it.a].first;
